@@ -243,6 +243,11 @@ def shrinks(sc):
             np_.append(n - prev)
         c['pieces'] = np_
         return c
+    size = len(text) // 2
+    while size >= 2:
+        for i in range(0, len(text), size):
+            yield with_text(text[:i] + text[i + size:])
+        size //= 2
     for i in range(len(text)):
         yield with_text(text[:i] + text[i + 1:])
     for i in range(len(pieces) - 1):
